@@ -7,7 +7,7 @@ use serde::{Deserialize, Serialize};
 #[derive(Clone, Debug, PartialEq, Eq, Hash, Serialize, Deserialize)]
 pub enum Step {
     /// subject-specific API edit at replica `r` (kind/a/b/c are choice indices)
-    Edit { r: u16, kind: u16, a: u16, b: u16, c: u16 },
+    Edit { r: u16, kind: u16, a: u16, b: u16, c: u16, d: u16, e: u16, f: u16 },
     /// deliver one not-yet-known op, eligible under the check's delivery discipline
     Deliver { r: u16, pick: u16 },
     /// deliver an op the replica already knows (at-least-once)
@@ -114,7 +114,7 @@ fn step_strategy(w: &Weights) -> BoxedStrategy<Step> {
     let any = || any::<u16>();
     let mut v: Vec<(u32, BoxedStrategy<Step>)> = Vec::new();
     if w.edit > 0 {
-        v.push((w.edit, (any(), any(), any(), any(), any()).prop_map(|(r, kind, a, b, c)| Step::Edit { r, kind, a, b, c }).boxed()));
+        v.push((w.edit, (any(), any(), any(), any(), any(), any(), any(), any()).prop_map(|(r, kind, a, b, c, d, e, f)| Step::Edit { r, kind, a, b, c, d, e, f }).boxed()));
     }
     if w.deliver > 0 {
         v.push((w.deliver, (any(), any()).prop_map(|(r, pick)| Step::Deliver { r, pick }).boxed()));
